@@ -271,6 +271,9 @@ func c03Initiator(rc *RC) {
 			}
 			replies++
 			el, data := "", b64(resp)
+			if len(resp) == 0 {
+				data = "" // no additional data (a lone "=" is a separate mutation)
+			}
 			switch {
 			case serr != nil:
 				el = "failure"
@@ -404,7 +407,7 @@ func c03Receiver(rc *RC) {
 		done = true
 	})
 	// scripted client program
-	acts := []string{"auth-plain-good", "auth-plain-good", "auth-plain-3parts-bad", "auth-plain-malformed", "auth-plain-eq", "auth-plain-empty", "auth-plain-badb64", "auth-twostep", "auth-unoffered", "auth-unknown", "response-first", "abort", "foreign", "auth-nomech"}
+	acts := []string{"auth-unknown-plain-payload", "auth-unknown-twostep-payload", "auth-plain-good", "auth-plain-good", "auth-plain-3parts-bad", "auth-plain-malformed", "auth-plain-eq", "auth-plain-empty", "auth-plain-badb64", "auth-twostep", "auth-unoffered", "auth-unknown", "response-first", "abort", "foreign", "auth-nomech"}
 	var prog []string
 	for i, n := 0, ch.Range("script", 1, 4); i < n; i++ {
 		prog = append(prog, acts[ch.Int("script", len(acts))])
@@ -414,6 +417,7 @@ func c03Receiver(rc *RC) {
 	rc.CaseKey = fmt.Sprint("recv", len(offered), prog)
 	out := sc.Out()
 	var sentLog []string
+	lastAuthMech := "?"
 	rc.Spawn("script", func() {
 		io.WriteString(cc, `<?xml version='1.0'?><stream:stream xmlns='jabber:client' xmlns:stream='http://etherx.jabber.org/streams' version='1.0' to='example.net'>`)
 		simrt.WaitUntil("script:features", func() bool { return done || bytes.Contains(out.Tap, []byte("</stream:features>")) })
@@ -424,6 +428,7 @@ func c03Receiver(rc *RC) {
 			before := len(out.Tap)
 			send := func(s string) { sentLog = append(sentLog, s); io.WriteString(cc, s) }
 			auth := func(mech, payload string) {
+				lastAuthMech = mech
 				send(fmt.Sprintf(`<auth xmlns='%s' mechanism='%s'>%s</auth>`, nsSASL, mech, payload))
 			}
 			switch a {
@@ -452,7 +457,19 @@ func c03Receiver(rc *RC) {
 				auth("SCRAM-SHA-1", b64([]byte("n,,n=user,r=abc")))
 			case "auth-unknown":
 				auth("X-NOPE", "=")
+			case "auth-unknown-plain-payload":
+				auth([]string{"X-OAUTH2", "plain", "ANONYMOUS", "SCRAM-SHA-1"}[ch.Int("script", 4)], b64([]byte("\x00user\x00pass")))
+			case "auth-unknown-twostep-payload":
+				auth("X-NOPE", b64([]byte("hello")))
+				simrt.WaitUntil("script:challenge2", func() bool { return done || len(out.Tap) > before })
+				if bytes.Contains(out.Tap[before:], []byte("<challenge")) {
+					before = len(out.Tap)
+					send(fmt.Sprintf(`<response xmlns='%s'>%s</response>`, nsSASL, b64([]byte("user\x00pass"))))
+				} else {
+					continue
+				}
 			case "auth-nomech":
+				lastAuthMech = ""
 				send(fmt.Sprintf(`<auth xmlns='%s'>%s</auth>`, nsSASL, b64([]byte("\x00user\x00pass"))))
 			case "response-first":
 				send(fmt.Sprintf(`<response xmlns='%s'>%s</response>`, nsSASL, b64([]byte("\x00user\x00pass"))))
@@ -517,5 +534,11 @@ func c03Receiver(rc *RC) {
 			}
 			rc.Check("C03.c3", "unoffered-mechanism-used", okm, "receiver authenticated with mechanism %q which it did not offer", last.mech)
 		}
+		// … and it is the mechanism the peer named in its <auth/>
+		named := false
+		for _, m := range offered {
+			named = named || m.Name == lastAuthMech
+		}
+		rc.Check("C03.c3", "authn-under-unoffered-mechanism-name", named, "receiver authenticated an exchange that the peer started with <auth mechanism=%q/>, which was not offered (offered %d mechanisms); client sent %v", lastAuthMech, len(offered), sentLog)
 	}
 }
